@@ -27,6 +27,8 @@ def c06_hist(rng, length, mode):
             if e not in cancelled:
                 ch += [("C", e)] * 2
             ch += [("A", e)]
+            if e not in half:
+                ch += [("G", e)]
         if not owed and n > 0:
             ch += [("AI", None)]
             if mode == "idle":
@@ -44,7 +46,7 @@ def c06_hist(rng, length, mode):
             if ev == "SC":
                 cancelled.add(n)
             n += 1
-        elif ev in ("R", "T", "A"):
+        elif ev in ("R", "T", "A", "G"):
             evs.append("%s%d" % (ev, e))
             owed.remove(e)
             half.discard(e)
@@ -99,6 +101,10 @@ def c06_gen(rng, tier):
         ("plain", "S,H0,C0,S,T0,R1"),                   # ... second exchange while the rest is pending
         ("plain", "S,H0,A0,S,R1"),                      # abort mid-reply: never idle
         ("plain", "S,C0,A0,S,R1"),                      # abort of an abandoned exchange
+        ("plain", "S,G0,S,R1,S,R2"),                    # a reply that is no DNS message (length 2): never idle again
+        ("plain", "S,R0,S,G1,S,R2,S,R3"),               # ... on a reused connection (20 octets, counts that lie)
+        ("plain", "S,S,S,R0,R1,G2,S,R3,S,R4"),          # ... (length 11, 11 octets)
+        ("plain", "S,C0,G0,S,R1"),                      # ... for an abandoned exchange
         ("plain", "S,R0,AI,S,R1"),                      # server closed the idle conn: retry on reused, then dial
         ("plain", "S,S,S,R0,R1,R2,AI,S,R3"),            # three dead idle conns walked by the retry loop
         ("idle", "S,R0,IT,S,R1"),                       # idle timer closed it
@@ -155,6 +161,8 @@ def c06_classify(line, res):
         tags.append("split")
     if any(e.startswith("A") for e in h):
         tags.append("abort")
+    if any(e.startswith("G") for e in h):
+        tags.append("garbage-reply")
     if "IT" in h:
         tags.append("idle-timer")
     if "DL" in h:
